@@ -136,6 +136,16 @@ def epk_values(rng):
             {**base, "d": "AA"}, {**base, "use": "sig"}, {**base, "use": 5}, {**base, "key_ops": "x"}, {**base, "key_ops": [5]}, {**base, "kid": 5},
             {**base, "x": b64u_enc(b"\0" * 32), "y": b64u_enc(b"\0" * 32)}, {**okp, "x": b64u_enc(b"\0" * 32)}, {"kty": "RSA", "n": "AQAB", "e": "AQAB"},
             {"kty": "oct", "k": "AAAA"}, {}, {"kty": None}, {"kty": "EC"}, {"kty": "OKP"}, {"kty": []}]
+    # optional JWK members of every JSON type, alone and in pairs (use x key_ops are validated against each other)
+    uses = ["sig", "enc", ["enc"], ["sig", "enc"], [], 5, None, {}, {"enc": 1}, True, "", [["enc"]]]
+    opss = [["deriveKey"], ["deriveBits", "deriveKey"], "deriveKey", "", [], [5], 5, None, {}, {"deriveKey": 1}, [["deriveKey"]], [None], True]
+    for b in (base, okp):
+        for u in uses:
+            for o in opss:
+                out.append({**b, "use": copy.deepcopy(u), "key_ops": copy.deepcopy(o)})
+        for m in ("alg", "kid", "x5c", "x5u", "x5t", "x5t#S256", "ext", "oth"):
+            for v in (None, 5, [], {}, True, "", "x", ["x"], [5], {"a": []}):
+                out.append({**b, m: copy.deepcopy(v)})
     return out
 
 
@@ -452,16 +462,18 @@ def inner_data_family(fz: Fz, rng):
             streams[f"valid-{n}-{cname}-then-corrupt"] = c.compress(body) + c.flush(zlib.Z_SYNC_FLUSH) + b"\x06\xff"
             c = zlib.compressobj(6, zlib.DEFLATED, -15)
             streams[f"valid-{n}-{cname}-then-truncated"] = (c.compress(body + b"tail" * 50) + c.flush())[:-3] if cname == "const" else c.compress(body) + c.flush(zlib.Z_SYNC_FLUSH)
-    for enc in g.ENCS:
-        for alg, form in (("dir", "compact"), ("A128KW", "flattened"), ("A256KW", "general")):
-            rk, _ = g.keys_for(alg, enc)
-            for sname, stream in streams.items():
-                b = g.make(form, enc, [(alg, rk, None)], b"", zip_=True, compressed=stream)
-                eps = jwe_eps(j, j.key(rk), [alg, enc, "DEF"]) if form == "compact" else jwe_json_eps(j, j.key(rk), [alg, enc, "DEF"])
-                for name, ep in eps:
-                    fz.run("inner-deflate", name, lambda ep=ep, b=b: ep(b.token), {"enc": enc, "alg": alg, "stream": sname})
-        if fz.ctx.out_of_time():
-            return
+    def deflate_streams():
+        for enc in g.ENCS:
+            for alg, form in (("dir", "compact"), ("A128KW", "flattened"), ("A256KW", "general")):
+                rk, _ = g.keys_for(alg, enc)
+                for sname, stream in streams.items():
+                    b = g.make(form, enc, [(alg, rk, None)], b"", zip_=True, compressed=stream)
+                    eps = jwe_eps(j, j.key(rk), [alg, enc, "DEF"]) if form == "compact" else jwe_json_eps(j, j.key(rk), [alg, enc, "DEF"])
+                    for name, ep in eps:
+                        fz.run("inner-deflate", name, lambda ep=ep, b=b: ep(b.token), {"enc": enc, "alg": alg, "stream": sname})
+            if fz.ctx.out_of_time():
+                return
+    # (the cheap deterministic cases first: a slow machine must not lose them to the time budget)
     # CBC-HS plaintext with bad padding under a valid MAC
     from Crypto.Cipher import AES
     import hmac as _h
@@ -506,6 +518,7 @@ def inner_data_family(fz: Fz, rng):
             fz.run("deep-header", name, lambda ep=ep: ep(f"{p64e}..AAAAAAAAAAAAAAAA.AAAA.AAAAAAAAAAAAAAAAAAAAAA"), {"depth": depth})
         for name, ep in jwe_json_eps(j, j.key(gen.new_oct(128)), ["dir", "A128GCM"]):
             fz.run("deep-header", name, lambda ep=ep: ep({"protected": p64e, "iv": "AAAAAAAAAAAAAAAA", "ciphertext": "AAAA", "tag": "AAAAAAAAAAAAAAAAAAAAAA"}), {"depth": depth, "form": "flat"})
+    deflate_streams()
 
 
 def unsuitable_keys_family(fz: Fz, rng):
